@@ -6,5 +6,5 @@ for x in A B; do
   [ -f /tmp/seed3/$ID/out/$x/patch.diff ] || continue
   mkdir -p seeded/$ID-3$x; cp /tmp/seed3/$ID/out/$x/* seeded/$ID-3$x/
   tools/try_seed.py $ID seeded/$ID-3$x 3$x > /tmp/seed3/$ID/try_$x.log 2>&1
-  echo "$ID-2$x $(grep -E '^ "caught"|"suite_passes|"demo_on_patched|"patch_applies' /tmp/seed3/$ID/try_$x.log | tr -d '\n ')"
+  echo "$ID-3$x $(grep -E '^ "caught"|"suite_passes|"demo_on_patched|"patch_applies' /tmp/seed3/$ID/try_$x.log | tr -d '\n ')"
 done
